@@ -225,6 +225,11 @@ def exec_op(sess, op, index=0):
                 if op.get('solver'):
                     o = o.EquationSolver
                 setattr(o, op['attr'], op['value'] if op.get('ref') is None else H.get(op['ref']))
+            elif name == 'LogInfo':
+                if not need('model'):
+                    return 'noop'
+                # public diagnostic dump; (re)generates the full sector codes as a side effect
+                H[op['model']].LogInfo()
             elif name == 'Exclude':
                 if not need('sector'):
                     return 'noop'
